@@ -63,7 +63,7 @@ def main():
             runs.append(("deep", {"DEPTH": "6", "PATCHES": "3", "NEST": "3", "PRESET": "small", "API": "str"}))
         cases, states, transitions, ok, alarms, tails = [], 0, 0, True, [], []
         from concurrent.futures import ThreadPoolExecutor
-        with ThreadPoolExecutor(max_workers=len(runs)) as ex:       # the TLC runs are independent: run them side by side
+        with ThreadPoolExecutor(max_workers=3) as ex:       # the TLC runs are independent: three at a time
             results = list(ex.map(lambda r: sat.tlc_histories("MockPatch", "MockPatch.cfg", sc, env=r[1],
                                                               workers=max(2, common.NCPU // 2)), runs))
         for (name, env), (hs, res) in zip(runs, results):
@@ -80,7 +80,10 @@ def main():
             ok = ok and res.ok
         total = nmis = 0
         for bname, bdir in builds.items():
-            mism, n = sat.replay(bdir, "replay_c19.py", cases)
+            sel = [i for i, c in enumerate(cases) if bname == "pure" or c["run"] != "deep"]     # the deep run only on the pure build
+            mism, n = sat.replay(bdir, "replay_c19.py", [cases[i] for i in sel], chunk=1000)    # small chunks: the runs differ in cost per history
+            for m in mism:
+                m["i"] = sel[m["i"]]
             total += n
             nmis += len(mism)
             for m in mism:
@@ -137,6 +140,7 @@ def main():
                                            "object the class, a staticmethod object / mock / callable object / bound method nothing; classmethod/staticmethod replacement objects "
                                            "are given to class targets only (a module attribute is not a descriptor slot)",
                                            ".asyncio() coroutines are awaited with run_until_complete on one event loop per replay process (not a fresh asyncio.run loop per call)",
+                                           "thorough: the 3-patcher 'deep' run is replayed on the pure build only, all other runs on both builds",
                                            "unittest.mock internals, TLC and the replay harness are trusted"], tier_=tier)
         return rc
 
